@@ -4,16 +4,22 @@
 # `tools/iso.sh det tools/detect_all.sh iso` runs it on scratch clones without touching /repo and /verif.
 if [ "$1" = iso ]; then VERIF="$(pwd)"; REPO="$(dirname "$VERIF")/repo"; export VERIF REPO; fi
 cd "${VERIF:-/verif}" || exit 2
+# first pass with the main configuration only (VERIF_ONLY_MAIN=1), misses are re-run with both configurations
 miss=0; n=0
+run1() { # <patch> <id>
+  out=$(SKIP_TESTS=1 VERIF_ONLY_MAIN=1 tools/runmutant.sh "$1" "$2" 2>&1 | tail -1)
+  case "$out" in *"exit=1"*) ;; *) out=$(SKIP_TESTS=1 tools/runmutant.sh "$1" "$2" 2>&1 | tail -1);; esac
+  echo "$out"
+}
 for f in mutants/*.diff; do
   id=$(basename $f | cut -c1-3 | tr a-z A-Z)
-  out=$(SKIP_TESTS=1 tools/runmutant.sh $f $id 2>&1 | tail -1)
+  out=$(run1 $f $id)
   n=$((n+1))
   case "$out" in *"exit=1"*) echo "ok   $f -> $id";; *) echo "MISS $f -> $id :: $out"; miss=$((miss+1));; esac
 done
 for d in seeded/*/; do
   name=$(basename $d); id=$(echo $name | cut -c1-3)
-  out=$(SKIP_TESTS=1 tools/runmutant.sh $d/patch.diff $id 2>&1 | tail -1)
+  out=$(run1 $d/patch.diff $id)
   n=$((n+1))
   case "$out" in *"exit=1"*) echo "ok   $d -> $id";; *) echo "MISS $d -> $id :: $out"; miss=$((miss+1));; esac
 done
